@@ -122,6 +122,52 @@ Fixpoint times_sorted (t0 : Z) (l : list req) : bool :=
 Definition tokens_nonneg (l : list req) : bool := forallb (fun r => 0 <=? snd r) l.
 
 (* ------------------------------------------------------------------ *)
+(* Any rate.  interval = float64(time.Second) / float64(permitsPerSecond) is the RATIONAL
+   1e9 / permitsPerSecond nanoseconds per permit (so interval * rate = one second, whatever
+   the rate); it is a whole number only when the rate divides 1e9.  The model keeps it as
+   the pair (nanos_per_second, pps) and computes permits * interval exactly:
+        credit * pps = (now - last) * pps - tokens * 1e9,
+   capped at maxPermits * 1e9; int64(.) truncates toward zero, which is [Z.quot].  When the
+   rate divides 1e9 this is the integer model above (Proofs: q_stored_integer). *)
+
+Definition nanos_per_second : Z := 1000000000.
+
+Record qcfg := {
+  pps : Z;                    (* permitsPerSecond, > 0 *)
+  qmax : option Z;            (* maxPermits; None = +Inf *)
+  qtimeout : Z
+}.
+
+(* the interval as a numerator / denominator pair *)
+Definition q_interval_num (c : qcfg) : Z := nanos_per_second.
+Definition q_interval_den (c : qcfg) : Z := pps c.
+
+Definition q_capped (c : qcfg) (credit_scaled : Z) : Z :=
+  match qmax c with
+  | Some m => if credit_scaled >? m * nanos_per_second then m * nanos_per_second else credit_scaled
+  | None => credit_scaled
+  end.
+
+Definition q_stored (c : qcfg) (last now tokens : Z) : Z :=
+  now - Z.quot (q_capped c ((now - last) * pps c - tokens * nanos_per_second)) (pps c).
+
+Definition q_rcfg (c : qcfg) : rcfg :=      (* only the timeout matters for the decision *)
+  {| interval := 0; max_permits := qmax c; rtimeout := qtimeout c |}.
+
+Definition q_acquire (c : qcfg) (next now tokens : Z) : Z * verdict :=
+  (q_stored c next now tokens, decide (q_rcfg c) next now).
+
+Fixpoint q_final (c : qcfg) (next : Z) (reqs : list req) : Z :=
+  match reqs with
+  | [] => next
+  | (now, tokens) :: r => q_final c (q_stored c next now tokens) r
+  end.
+
+(* the integer-interval configuration of a rate that divides 1e9 *)
+Definition q_to_rcfg (c : qcfg) : rcfg :=
+  {| interval := nanos_per_second / pps c; max_permits := qmax c; rtimeout := qtimeout c |}.
+
+(* ------------------------------------------------------------------ *)
 (* Concurrent callers.  The load and the store of l.next are two separate atomic
    operations, so one call of Acquire is two steps of the LTS.  time.Now() is read just
    before the load; readings are monotone over the whole run ([rclock]), and a caller that
